@@ -423,6 +423,7 @@ const c8DeepBase = 9_500_000
 const c8IntBase = 9_700_000
 const c8SizeBase = 9_800_000
 const c8TxtBase = 9_900_000
+const c8SkipBase = 9_950_000
 
 type c8Run struct {
 	out   *vOut
@@ -1572,6 +1573,50 @@ func (h *c8Run) badBlock(replay, base int, classes []string, area string) {
 	}
 }
 
+// skipBlock: see TestVerifC08Codec. One document per (root, literal, position).
+func (h *c8Run) skipBlock(replay int) {
+	lits := []string{"1e400", "-1e400", "1E400", "1e+400", "1e309", "1.7976931348623159e308", "1.7976931348623157e308", "1e308", "1E+2", "1e2",
+		"1e-400", "0e999", "0.1e-999", "5", "0", "-0", "-7", "2.5", "0.0", "12345678901234567890123", "-18446744073709551616",
+		"123456789012345678901234567890.5",
+		"1" + strings.Repeat("0", 70) + "e5", "1" + strings.Repeat("0", 70) + "e300", "1" + strings.Repeat("0", 400), "0." + strings.Repeat("0", 80) + "1e-5"}
+	inner := map[string]string{"logs": "resourceLogs", "metrics": "resourceMetrics", "traces": "resourceSpans", "profiles": "resourceProfiles"}
+	idx := c8SkipBase
+	for _, name := range []string{"logs", "metrics", "traces", "profiles", "logsreq", "metricsreq", "tracesreq", "profilesreq",
+		"logsresp", "metricsresp", "tracesresp", "profilesresp"} {
+		r := h.roots[name]
+		var docs []string
+		for _, n := range lits {
+			docs = append(docs, `{"zzUnknown":`+n+`}`, `{"zzUnknown":[true,"x",[`+n+`]]}`, `{"zzUnknown":{"a":null,"b":{"c":`+n+`}}}`)
+			if strings.HasSuffix(name, "resp") {
+				docs = append(docs, `{"partialSuccess":{"zzUnknown":`+n+`,"errorMessage":"m"}}`)
+			} else {
+				docs = append(docs, `{"`+inner[strings.TrimSuffix(name, "req")]+`":[{"schemaUrl":"s","zzUnknown":`+n+`},{"zzUnknown":[`+n+`],"schemaUrl":"t"}]}`)
+			}
+		}
+		for _, doc := range docs {
+			c := idx
+			idx++
+			if replay >= 0 && replay != c {
+				continue
+			}
+			h.begin(c, "skipnum", r.name)
+			h.stat("skipnum")
+			plain, _, err := c8DocJ([]byte(doc))
+			if err != nil {
+				h.stat("skipnum.unparsable")
+				h.end(false)
+				continue
+			}
+			if _, err := h.opJdec(r, []byte(doc), plain, c8DocPF([]byte(doc))); err != nil {
+				h.stat("skipnum.err")
+			} else {
+				h.stat("skipnum.ok")
+			}
+			h.end(true)
+		}
+	}
+}
+
 func TestVerifC08OwnRace(t *testing.T) {
 	out := vOpen(t)
 	defer out.Close()
@@ -1728,8 +1773,16 @@ func TestVerifC08Codec(t *testing.T) {
 	// ids and base64 bytes exactly as the readers take them (hex either case / quoted / zero written out / odd, long, non-hex; base64 with
 	// CR LF anywhere, url-safe alphabet, missing / misplaced padding, trailing bits): the model's idUnmarshalJSON / b64Read (theorems
 	// C08_hexid_roundtrip, C08_base64_roundtrip) predict value vs error exactly. Case indices from c8TxtBase; always run.
-	if replay < 0 || (replay >= c8TxtBase && replay < c8ExhBase) {
+	if replay < 0 || (replay >= c8TxtBase && replay < c8SkipBase) {
 		h.badBlock(replay, c8TxtBase, c8TxtLeafClasses, "txtleaf")
+	}
+	// number literals inside UNKNOWN members: jsoniter's strict Skip scans digits and one dot itself and hands every other literal
+	// (exponent forms) to ReadFloat64, so an unknown member holding `1e400` fails the whole document while `12345678901234567890123`
+	// or `1e-400` do not — the model's `skipOk` (theorems C08_json_unknown_member, C08_json_skip_plain_number) predicts value vs
+	// error exactly, at the top level, inside an unknown array / object, and inside a known sub-message, for every root.
+	// Case indices from c8SkipBase; always run.
+	if replay < 0 || (replay >= c8SkipBase && replay < c8ExhBase) {
+		h.skipBlock(replay)
 	}
 	if (vThorough() && replay < 0) || replay >= c8ExhBase {
 		idx := c8ExhBase
